@@ -125,6 +125,10 @@ def o_clock(case, obs):
                     return "cmd %d: %s ran before synchronize(%s)" % (j, e, f[-1])
         if kind(res) == "oos" and (not es or not es[-1].startswith("K:")):
             return "cmd %d: OutOfSync without a preceding clock call" % j
+        if kind(res) == "oos" and tol is None:
+            return "cmd %d: the call failed with %s although no clock tolerance is configured (lags must be ignored)" % (j, res)
+        if kind(res) == "oos" and tol is not None and int(res.split(":")[1]) <= tol:
+            return "cmd %d: the call failed with %s although the lag does not exceed the tolerance %d" % (j, res, tol)
         if c[0] in ("st", "su") and res == "ok" and t != prev_t and t not in seen_times:
             return "cmd %d: moved to time %d without synchronize(%d)" % (j, t, t)
         prev_t = t
@@ -665,4 +669,32 @@ def o_clock_probe(case, obs):
         for e in ents:
             if e.startswith("Z:") and e.split(":")[1] != "1":
                 return "cmd %d: a scheduling request at the deadline of the step in progress, made during Clock::synchronize, was answered with code %s (0 = accepted)" % (i, e.split(":")[1])
+    return None
+
+
+def o_nonfatal(case, obs):
+    """C11: a query to a mailbox that was dropped is a BadQuery, an event to it is accepted and lost
+    silently; neither is a fatal error: the simulation stays usable (the next run attempt does not
+    return Terminated because of it)."""
+    models = case["models"]
+    def dropped(m):
+        cur = m
+        while cur is not None and cur < len(models):
+            if models[cur].get("place", 0) == 2:
+                return True
+            cur = models[cur].get("parent")
+        return False
+    if kind(obs[0][0]) in FATAL:
+        return None
+    dead = False
+    for j, c in enumerate(case["cmds"]):
+        res, t, es = obs[j + 1]
+        if res == "noinit":
+            return None
+        if not dead and c[0] == "pq" and dropped(c[1]) and res != "badq":
+            return "cmd %d: process_query to the dropped mailbox of model %d returned %s, not BadQuery" % (j, c[1], res)
+        if not dead and c[0] == "pe" and dropped(c[1]) and res != "ok":
+            return "cmd %d: process_event to the dropped mailbox of model %d returned %s, not Ok" % (j, c[1], res)
+        if kind(res) in FATAL:
+            dead = True
     return None
